@@ -201,7 +201,7 @@ func (h *harness) shards(f *fam, n int, fn func(i int, w *worker)) {
 // suspect input is then run again on a fresh goroutine and only if that second, independent run
 // does not come back within hangTicks further rounds is non-termination reported (the functions
 // are pure and deterministic, so a real endless loop always reproduces).
-const hangTicks = 20
+const hangTicks = 10
 
 func (h *harness) rerunHangs(c *codec, parse bool, in []byte) bool {
 	done := make(chan struct{})
